@@ -141,6 +141,16 @@ def corpus(ctx):
     for tags in (["ExpertSingle", "HardSingle"], ["HardSingle"], ["MediumSingle", "ExpertDoubleBass"], ["ExpertSingle", "HardSingle", "EasySingle"], ["ExpertDrums"]):
         cases.append((head + "".join(sec_(t, 10 * (j + 1)) for j, t in enumerate(tags)), [(0, 3)]))
         cases.append((head + "".join(sec_(t, 10 * (j + 2)) for j, t in enumerate(tags)), [(0, 3), (4, 3)]))
+    # … in this order too: three parses of a chart lacking the wanted track (whatever way the selection list is handed over, one of them
+    # gets the application's shared list), then — in reference interpreters of their own — charts that have that track and more
+    pad()
+    for _ in range(3):
+        cases.append((head + sec_("HardSingle", 30) + sec_("EasySingle", 35), [(0, 3)]))
+    pad()
+    cases.append((head + sec_("ExpertSingle", 40) + sec_("HardSingle", 50) + sec_("EasySingle", 60), [(0, 3)]))
+    pad()
+    cases.append((head + sec_("HardSingle", 45) + sec_("ExpertSingle", 55) + sec_("MediumSingle", 65), [(0, 3)]))
+    pad()
     # charts whose sync section lacks its tick-0 signature and / or tempo: always the same answer, first time and every time after
     for body in (["  0 = B 120000", "  5 = TS 3"], ["  0 = TS 4", "  7 = B 90000"], ["  3 = TS 4", "  9 = B 90000"], ["  0 = B 100000"], ["  0 = TS 6"]):
         for k in range(2):
